@@ -28,6 +28,8 @@ theorem finish_refines (b : WB) (g : G) (pend : List Ch) (W : Nat) (h : Rel b g 
   by_cases hp : pend = []
   · have hw : b.word.noContent = true := (er_eq_nil_iff _).mp (by rw [h.word, hp])
     simp only [hp, if_true, G.places, andThen_ok, WB.flushWord, hw, specEnd, ExRel_ok_ok]
+    show erL (rescueMarks _ _) = _
+    rw [erL_rescueMarks _ _ (flushLine_line_noContent _)]
     exact finish_rel _ g (h.core.congr rfl rfl rfl rfl rfl rfl)
   · simp only [hp, if_false]
     rw [places_cons, ← andThen_assoc]
@@ -36,6 +38,8 @@ theorem finish_refines (b : WB) (g : G) (pend : List Ch) (W : Nat) (h : Rel b g 
     refine ExRel.bind h1 ?_
     intro b' g' hpl
     simp only [G.places, andThen_ok, specEnd, ExRel_ok_ok]
+    show erL (rescueMarks _ _) = _
+    rw [erL_rescueMarks _ _ (flushLine_line_noContent _)]
     exact finish_rel _ _ hpl.1
 
 /-- the characters of one `add_text` call, with an arbitrary continuation for what follows -/
